@@ -417,7 +417,7 @@ static void w_apply(int opi, int check)
                     if (!o->b && outbuf[i][len] != 0xEE) report("overrun", opi, "wrote past the output length on %s", be_name(g_be[i]));
                 }
             }
-            W.consumed += len; W.pos += (uint64_t)len; ++W.nenc;
+            W.consumed += len; W.pos += (uint64_t)len; if (g_mode == MODE_C06) ++W.nenc;
             if (W.nreconf) ++W.nafter;
         } else if (W.phase == PH_LIVE) {
             ++W.unkeyed_enc;
@@ -562,7 +562,7 @@ static void body(void)
                                     kind_name, on, LENS[1], LENS[3], be_name(g_be[0]), g_nbe > 1 ? ",v128" : "", g_nbe > 2 ? ",v256" : "");
         }
     }
-    note_num("frontier_exhausted", closed_all);
+    note_num("kinds_cut_by_depth_cap", closed_all ? 0 : 1);
     distinct_add_u64(1);
 }
 
